@@ -327,6 +327,11 @@ impl fmt::Debug for Headers {
 pub struct ParseU64Error;
 
 pub fn parse_u64(src: &[u8]) -> Result<u64, ParseU64Error> {
+    if src.is_empty() {
+        // At least one digit is required
+        return Err(ParseU64Error);
+    }
+
     if src.len() > 19 {
         // At danger for overflow...
         return Err(ParseU64Error);
